@@ -21,6 +21,9 @@ NSS = ("numpy", "torch", "jax")
 EPS = 1e-6
 
 
+gen_open_override = None
+
+
 # ----------------------------------------------------------------------------- generation
 def gen_bounds(r, d, f32=False):
     lo, hi = [], []
@@ -146,7 +149,7 @@ def kinds_wire(c):
     for j in range(c["d"]):
         if c["periodic_on"] and j in c["periodic_idx"]:
             toks += ["p", fh(c["lo"][j]), fh(c["hi"][j])]
-        elif c["bounded_on"]:
+        elif c["bounded_on"] and math.isfinite(c["lo"][j]) and math.isfinite(c["hi"][j]):
             toks += ["b", fh(c["lo"][j]), fh(c["hi"][j])]
         else:
             toks.append("f")
@@ -407,6 +410,113 @@ def check_one(chk, c, o, r_fit, r_fwd, r_inv):
         chk.count(f"logJ_width_mismatch:{c['ns']}/{w}->{o['lj_width']}")
 
 
+def check_open_ranges(chk, r, n_cases):
+    """composites whose prior ranges are partly half-open ((0, inf), (-inf, 3)) or the whole line: such parameters are not mapped by the
+    bounded transform (there is no unit interval to scale to); they pass through, and the other parameters are transformed exactly as in
+    a composite that only has them.  All clauses of the property hold on the whole composite."""
+    from aspire import transforms as T
+
+    drv = core.LeanDriver()
+    todo = list(gen_open_override or [])
+    for i in range(n_cases):
+        nsn, width = NSS[i % 3], ("f64" if (i // 3) % 3 != 2 else "f32")
+        d = int(r.integers(2, 5))
+        lo, hi = gen_bounds(r, d, width == "f32")
+        kinds = [str(r.choice(["finite", "lower_only", "upper_only", "line"])) for _ in range(d)]
+        kinds[int(r.integers(d))] = str(r.choice(["lower_only", "upper_only"]))
+        x = np.empty((5, d)); fit = np.empty((12, d))
+        for j, k in enumerate(kinds):
+            wj = hi[j] - lo[j]
+            if k == "finite":
+                x[:, j] = lo[j] + r.uniform(0.05, 0.95, 5) * wj; fit[:, j] = lo[j] + r.uniform(0.1, 0.9, 12) * wj
+            elif k == "lower_only":
+                x[:, j] = lo[j] + np.exp(r.normal(0, 2, 5)) * wj; fit[:, j] = lo[j] + np.exp(r.normal(0, 1, 12)) * wj; hi[j] = math.inf
+            elif k == "upper_only":
+                x[:, j] = hi[j] - np.exp(r.normal(0, 2, 5)) * wj; fit[:, j] = hi[j] - np.exp(r.normal(0, 1, 12)) * wj; lo[j] = -math.inf
+            else:
+                x[:, j] = r.normal(0, 3, 5) * wj; fit[:, j] = r.normal(0, 1, 12) * wj; lo[j], hi[j] = -math.inf, math.inf
+        if width == "f32":
+            x, fit = x.astype(np.float32).astype(np.float64), fit.astype(np.float32).astype(np.float64)
+            lo = [float(np.float32(v)) for v in lo]; hi = [float(np.float32(v)) for v in hi]
+            for j, k in enumerate(kinds):     # rounding must not move a point out of its range
+                if k == "finite":
+                    u = (x[:, j] - lo[j]) / (hi[j] - lo[j]); x[~((u > 0.01) & (u < 0.99)), j] = np.float32(0.5 * (lo[j] + hi[j]))
+                    u = (fit[:, j] - lo[j]) / (hi[j] - lo[j]); fit[~((u > 0.01) & (u < 0.99)), j] = np.float32(0.5 * (lo[j] + hi[j]))
+        c = {"cls": "composite", "ns": nsn, "width": width, "d": d, "n": 5, "lo": lo, "hi": hi, "kinds": kinds, "bounded_kind": str(r.choice(["logit", "probit"])),
+             "periodic_on": False, "periodic_idx": [], "bounded_on": bool(i % 4 != 3), "affine_on": bool((i // 2) % 2), "shape1d": False, "order": i % 3,
+             "x": x.tolist(), "fit": fit.tolist(), "level": "open_ranges"}
+        todo.append(c)
+    lines, outs = [], []
+    for c in todo:
+        try:
+            xp, dt = ns.get_xp(c["ns"]), ns.native_dtype(c["ns"], c["width"])
+            t = build(c)
+            fy = t.fit(xp.asarray(np.asarray(c["fit"]), dtype=dt))
+            ff, _ = t.forward(xp.asarray(np.asarray(c["fit"]), dtype=dt))
+            y, lj = t.forward(xp.asarray(np.asarray(c["x"]), dtype=dt))
+            xb, lji = t.inverse(y)
+            fin = [j for j, k in enumerate(c["kinds"]) if k == "finite"]
+            ref = None
+            if fin and not c["affine_on"]:
+                c2 = {**c, "d": len(fin), "lo": [c["lo"][j] for j in fin], "hi": [c["hi"][j] for j in fin], "order": 0}
+                t2 = build(c2)
+                t2.fit(xp.asarray(np.asarray(c["fit"])[:, fin], dtype=dt))
+                y2, lj2 = t2.forward(xp.asarray(np.asarray(c["x"])[:, fin], dtype=dt))
+                ref = (ns.to_np(y2), ns.to_np(lj2).reshape(-1))
+            aff = getattr(t, "_affine_transform", None)
+            o = {"fy": ns.to_np(fy), "ff": ns.to_np(ff), "y": ns.to_np(y), "lj": ns.to_np(lj).reshape(-1), "xb": ns.to_np(xb), "lji": ns.to_np(lji).reshape(-1), "ref": ref,
+                 "affine": (ns.to_np(aff._mean).reshape(-1), ns.to_np(aff._std).reshape(-1)) if c["affine_on"] and aff is not None and getattr(aff, "_mean", None) is not None else None}
+        except Exception as e:   # noqa
+            o = e
+        outs.append(o)
+        if isinstance(o, Exception) or (c["affine_on"] and o["affine"] is None):
+            lines.append("f64 lse 1 " + fh(0.0))
+        else:
+            lines.append(" ".join([c["width"], "tfm", "fwd"] + cfg_wire(c, o["affine"] if c["affine_on"] else None) + ["0"] + rows_wire(c["x"])))
+    reps = drv.batch(lines)
+    for c, o, rep in zip(todo, outs, reps):
+        case = dict(c)
+        sig = {"cls": "composite:open", "ns": c["ns"], "width": c["width"], "level": "open_ranges"}
+        chk.count("class:composite:open_ranges")
+        chk.case(None, json.dumps([c["ns"], c["width"], c["kinds"], c["bounded_on"], c["affine_on"], c["lo"][0], c["x"][0]]))
+        if isinstance(o, Exception):
+            chk.fail("transform total", case, repr(o)[:300], {**sig, "clause": "raise", "exc": type(o).__name__})
+            continue
+        f32 = c["width"] == "f32"
+        eps = 2.0 ** -23 if f32 else 2.0 ** -52
+        x = np.asarray(c["x"])
+        if not (np.all(np.isfinite(o["y"])) and np.all(np.isfinite(o["lj"])) and np.all(np.isfinite(o["xb"]))):
+            chk.fail("inverse(forward(x)) = x inside the bounds", case, f"non-finite image / log-Jacobian / round trip for ranges {c['kinds']}", {**sig, "clause": "round_trip"})
+            continue
+        if not np.array_equal(o["fy"], o["ff"]):
+            chk.fail("fitting returns exactly the forward image of the fitting data", case, "fit(x) differs from forward(x)", {**sig, "clause": "fit"})
+        rt = np.abs(o["xb"] - x) <= (1e-9 if not f32 else 2e-3) * (1 + np.abs(x)) * (1 + np.abs(o["y"]))
+        if not rt.all():
+            t_, j_ = np.argwhere(~rt)[0]
+            chk.fail("inverse(forward(x)) = x inside the bounds", case, f"row {t_} coordinate {j_} ({c['kinds'][j_]}): {x[t_, j_]!r} -> {o['xb'][t_, j_]!r}", {**sig, "clause": "round_trip"})
+        if not np.all(np.abs(o["lj"] + o["lji"]) <= (1e-9 if not f32 else 2e-3) * (1 + np.abs(o["lj"])) * c["d"]):
+            chk.fail("inverse log-Jacobian is the negative of the forward one", case, f"forward {o['lj'][:2].tolist()} inverse {o['lji'][:2].tolist()}", {**sig, "clause": "negation"})
+        if not c["affine_on"]:
+            for j, k in enumerate(c["kinds"]):
+                if k != "finite" and not np.array_equal(o["y"][:, j], x[:, j].astype(o["y"].dtype)):
+                    chk.fail("forward log-Jacobian = log |det of the true derivative|", case,
+                             f"coordinate {j} with the {k} range [{c['lo'][j]}, {c['hi'][j]}] does not pass through unchanged: {x[:2, j].tolist()} -> {o['y'][:2, j].tolist()}",
+                             {**sig, "clause": "jacobian"})
+                    break
+            if o["ref"] is not None:
+                fin = [j for j, k in enumerate(c["kinds"]) if k == "finite"]
+                if not (np.array_equal(o["y"][:, fin], o["ref"][0]) and np.allclose(o["lj"], o["ref"][1], rtol=64 * eps, atol=64 * eps)):
+                    chk.fail("forward log-Jacobian = log |det of the true derivative|", case,
+                             "the finite-range coordinates are not transformed as in the composite that only has them (values or log-Jacobian differ)", {**sig, "clause": "jacobian"})
+        if rep.ok and not (c["affine_on"] and o["affine"] is None):
+            my = np.asarray(rep.fs()).reshape(-1, c["d"]); mlj = np.asarray(rep.fs())
+            tol = (1e-8 if not f32 else 5e-3) * (1 + np.abs(o["y"]))
+            if my.shape != o["y"].shape or not np.all(np.abs(my - o["y"]) <= tol) or not np.all(np.abs(mlj - o["lj"]) <= (1e-8 if not f32 else 5e-3) * (1 + np.abs(o["lj"])) * c["d"]):
+                chk.disagree("forward.open_ranges", case, [my.tolist()[:2], mlj.tolist()[:2]], [o["y"].tolist()[:2], o["lj"].tolist()[:2]])
+        elif not rep.ok:
+            raise core.HarnessError(rep.err)
+
+
 def m_periodic_upper(rec, sig):
     s = rec["signature"]
     d = s.get("frac_below_a_period")
@@ -429,6 +539,7 @@ def run(chk: core.Check):
     cases = [gen_case(r, i, chk.tier) for i in range(576 if quick else 5760)]
     for i in range(0, len(cases), 288):
         check_cases(chk, cases[i:i + 288])
+    check_open_ranges(chk, r, 72 if quick else 720)
 
     def search():
         sub = core.Check(chk.pid, chk.tier, chk.seed)
@@ -444,10 +555,24 @@ def replay(chk: core.Check, path: str) -> int:
     doc = json.loads(open(path).read())
     p = doc["payload"]
     cases = [p["case"]] if "case" in p else [d["case"] for d in p.get("correspondence", [])]
+    if any(c.get("level") == "open_ranges" for c in cases):
+        return replay_open(chk, cases)
     check_cases(chk, cases)
     for f in chk.failures[:10]:
         print("FAIL", f["clause"], f["detail"])
     for d in chk.disagreements[:10]:
         print("DISAGREE", d["op"], d["model"], d["impl"])
     print(f"replayed {len(cases)} case(s): {len(chk.failures)} oracle failure(s), {len(chk.disagreements)} disagreement(s); known-finding hits {chk.known_hits}")
+    return 1 if (chk.failures or chk.disagreements) else 0
+
+
+def replay_open(chk, cases):
+    global gen_open_override
+    gen_open_override = [c for c in cases if c.get("level") == "open_ranges"]
+    check_open_ranges(chk, None, 0)
+    for f in chk.failures[:10]:
+        print("FAIL", f["clause"], f["detail"])
+    for d in chk.disagreements[:10]:
+        print("DISAGREE", d["op"], d["model"], d["impl"])
+    print(f"replayed {len(gen_open_override)} case(s): {len(chk.failures)} oracle failure(s), {len(chk.disagreements)} disagreement(s)")
     return 1 if (chk.failures or chk.disagreements) else 0
